@@ -1025,6 +1025,8 @@ class DocGen:
                         resp["headers"] = {"X-Rate-Limit": {"schema": {"type": "integer"}, "description": "calls left"}}
                     if isinstance(resp, dict) and "$ref" not in resp and r.random() < 0.1:
                         resp["links"] = {"next": {"operationId": "op_none"}}
+        if r.random() < 0.08:
+            doc["info"]["version"] = ""  # legal (a string), and an invitation to "fall back" to something that is not in the document
         if r.random() < 0.3:
             doc["servers"] = [{"url": "https://api.example.com/{v}", "variables": {"v": {"default": "v1"}}}]
         if r.random() < 0.3:
